@@ -16,7 +16,7 @@ C04  Genomic-model predictions are linear, label-preserving and self-consistent 
 """
 import ast
 
-from sa.astutil import dump, where, kwargs_of, walk_no_nested, field_of
+from sa.astutil import oriented, dump, where, kwargs_of, walk_no_nested, field_of
 from sa.model import body_nodoc, FuncInfo
 from sa.vn import VN, Poly, VNUnknown, comparable, parse_expr
 from rules import c09
@@ -571,9 +571,18 @@ def check_rrblup(prog, rep):
             for pt in parts:
                 t = "".join(dump(pt).split())
                 m1 = [q for q in ("numpy.any(", "numpy.max(", "numpy.amax(", "numpy.linalg.norm(") if t.startswith(q)]
-                if t.startswith("numpy.all(") and ">" in t:
+                # the change vector is the local assigned from abs(current - previous); `change > tol` may be written `tol < change`
+                chg = {s_.targets[0].id for s_ in ast.walk(g.node) if isinstance(s_, ast.Assign) and isinstance(s_.targets[0], ast.Name) and isinstance(s_.value, ast.Call)
+                       and dump(s_.value.func).split(".")[-1] in ("abs", "absolute")}
+                inner = [c_ for c_ in ast.walk(pt) if isinstance(c_, ast.Compare) and len(c_.ops) == 1]
+                gt_tol = False
+                for c_ in inner:
+                    o_ = oriented(c_, lambda e: isinstance(e, ast.Name) and e.id in chg)
+                    if o_ is not None and isinstance(o_.ops[0], (ast.Gt, ast.GtE)):
+                        gt_tol = True
+                if t.startswith("numpy.all(") and gt_tol:
                     conv = ("all", pt)
-                elif m1 and ">" in t and "<" not in t.replace("<=", ""):
+                elif m1 and gt_tol:
                     conv = ("any", pt)
                 elif (".max()>" in t or ".any()" in t) and ">" in t:
                     conv = ("any", pt)
@@ -626,7 +635,9 @@ def check_rrblup(prog, rep):
             else:
                 md = fa.get(mask, [None])[0]
                 mt = "".join(dump(md).split()) if md is not None else ""
-                if mt not in ("~numpy.all(%s==%s[0,:],axis=0)" % (Zf, Zf), "numpy.any(%s!=%s[0,:],axis=0)" % (Zf, Zf), "numpy.logical_not(numpy.all(%s==%s[0,:],axis=0))" % (Zf, Zf)):
+                okmask = [x % (a_, b_) for x in ("~numpy.all(%s==%s,axis=0)", "numpy.any(%s!=%s,axis=0)", "numpy.logical_not(numpy.all(%s==%s,axis=0))")
+                          for a_, b_ in ((Zf, Zf + "[0,:]"), (Zf + "[0,:]", Zf))]
+                if mt not in okmask:
                     if "numpy.all(" in mt and not mt.startswith(("~", "numpy.logical_not")):
                         rep.violate("R7-rrblup", fn.qualname, "the markers handed to the solver are the MONOMORPHIC ones (%s)" % dump(md)[:60], where(fn), "~numpy.all(Z == Z[0,:], axis=0)", dump(md)[:60])
                     else:
